@@ -653,6 +653,7 @@ sqf::runtime::runtime::result sqf::runtime::runtime::execute(sqf::runtime::runti
         eval_context->push_frame(f);
         auto old_active = context_active_as_shared();
         m_context_active = eval_context;
+        bool failed = false;
         try
         {
             while (!eval_context->empty())
@@ -662,8 +663,14 @@ sqf::runtime::runtime::result sqf::runtime::runtime::execute(sqf::runtime::runti
                 {
                     m_state = runtime::state::running;
                 }
-                execute_do(*this, 1);
+                auto res = execute_do(*this, 1);
                 m_state = oldstate;
+                if (res == result::runtime_error)
+                { // The expression failed: nothing of it may run any further
+                    failed = true;
+                    eval_context->clear_frames();
+                    eval_context->clear_values(true);
+                }
             }
         }
         catch (const std::exception& ex)
@@ -671,7 +678,7 @@ sqf::runtime::runtime::result sqf::runtime::runtime::execute(sqf::runtime::runti
             m_evaluate_halt = false;
         }
         m_context_active = old_active;
-        if (m_runtime_error)
+        if (failed || m_runtime_error)
         {
             m_evaluate_halt = false;
             m_runtime_error = false;
